@@ -632,7 +632,15 @@ class AsyncFIXConnection:
                 msg_logon = FIXMessage(FMsg.LOGON)
                 msg_logon.set(FTag.EncryptMethod, encrypt_method)
                 msg_logon.set(FTag.HeartBtInt, heart_bt_int)
-                await self.send_msg(msg_logon)
+                try:
+                    await self.send_msg(msg_logon)
+                except asyncio.CancelledError:
+                    raise
+                except Exception:
+                    # the Logon() could not be answered (journal, socket): no
+                    #  exchange was completed, the connection does not stay open
+                    await self.disconnect(ConnectionState.DISCONNECTED_BROKEN_CONN)
+                    raise
 
         if self._connection_state == ConnectionState.RESENDREQ_AWAITING:
             # a Logon() in the middle of a session whose gap is still being filled:
